@@ -608,3 +608,57 @@ func WithWatchdog(d time.Duration, what string, f func() Result) Result {
 		return Fail("%s did not return within %v (hang / unbounded work)", what, d)
 	}
 }
+
+// FuzzFail is called by native fuzz targets when the oracle fails on a fuzz input: the case is saved
+// in the harness's own replay format under $VERIF_OUT/fuzzreplay (the driver reports it as a violation);
+// the Go fuzzer additionally keeps its own crasher file.
+func FuzzFail(id, check string, c any, errText string) string {
+	raw, _ := json.Marshal(c)
+	rf := ReplayFile{Property: id, Check: check, Error: errText, Note: "found by go test -fuzz", Case: raw}
+	b, _ := json.MarshalIndent(rf, "", " ")
+	out := os.Getenv("VERIF_OUT")
+	if out == "" {
+		out = os.TempDir()
+	}
+	dir := filepath.Join(out, "fuzzreplay")
+	_ = os.MkdirAll(dir, 0o755)
+	sum := sha256.Sum256(raw)
+	path := filepath.Join(dir, fmt.Sprintf("%s-%s-fuzz-%s.json", id, check, hex.EncodeToString(sum[:6])))
+	_ = os.WriteFile(path, b, 0o644)
+	return path
+}
+
+// CutsFromSeed derives a deterministic segmentation of n bytes from a fuzzer-chosen seed.
+func CutsFromSeed(n int, seed uint32) []int {
+	if n <= 1 {
+		return nil
+	}
+	var cuts []int
+	switch seed % 4 {
+	case 0:
+		return nil
+	case 1: // byte at a time (bounded)
+		for i := 1; i < n && i < 2000; i++ {
+			cuts = append(cuts, i)
+		}
+	case 2: // fixed stride
+		st := int(seed>>2)%61 + 1
+		for i := st; i < n; i += st {
+			cuts = append(cuts, i)
+		}
+	default: // pseudo-random
+		x := seed | 1
+		pos := 0
+		for {
+			x ^= x << 13
+			x ^= x >> 17
+			x ^= x << 5
+			pos += int(x%97) + 1
+			if pos >= n {
+				break
+			}
+			cuts = append(cuts, pos)
+		}
+	}
+	return cuts
+}
